@@ -66,7 +66,7 @@ class _Parser:
         return p
 
 
-def run_cli(repo: Repo, options: Dict[str, Any], stdin: bytes = b"", files: Dict[str, bytes] = None):
+def run_cli(repo: Repo, options: Dict[str, Any], stdin: bytes = b"", files: Dict[str, bytes] = None, default_analyzer: bool = False):
     """Interpret cli.main with the given parsed options.  Returns (exit status or ('raises', exc), stdout bytes, printed text)."""
     from .props.c06 import _fresh_objeval
 
@@ -78,12 +78,16 @@ def run_cli(repo: Repo, options: Dict[str, Any], stdin: bytes = b"", files: Dict
     opened: List[tuple] = []
     oe.externals["argparse.ArgumentParser"] = _Parser(options)
 
+    written: Dict[str, Any] = {}
+
     def _open(path, mode="r", *a, **k):
         opened.append((path, mode))
         if "r" in mode and "b" in mode and files and path in files:
             return io.BytesIO(files[path])
         if any(ch in mode for ch in "wax+"):
-            return io.BytesIO()
+            if path not in written or "w" in mode:
+                written[path] = io.BytesIO() if "b" in mode else _KeepStringIO()
+            return written[path]
         raise PyRaise("FileNotFoundError")
 
     oe.externals["builtins.open"] = Native(_open, "open")
@@ -98,12 +102,25 @@ def run_cli(repo: Repo, options: Dict[str, Any], stdin: bytes = b"", files: Dict
     oe.module_state[("sys", "stdout")] = stdout_rec
     oe.module_state[("sys", "stderr")] = stderr_rec
     oe.module_state[("sys", "argv")] = ["fickling"]
+    if default_analyzer:
+        A = "fickling.analysis"
+        ab = repo.cls(f"{A}.Analysis")
+        subs = sorted((c for c in repo.classes.values() if c is not ab and repo.is_subclass(c, ab.qualname)), key=lambda c: (c.module.name != A, c.module.name, c.node.lineno))
+        oe.class_store.setdefault(f"{A}.Analyzer", {})["default_instance"] = oe.instantiate(repo.cls(f"{A}.Analyzer"), [[oe.instantiate(c, [], {}) for c in subs]], {})
     main = oe.module_global(repo.modules["fickling.cli"], "main")
     try:
         rc = main(["fickling"])
     except PyRaise as pe:
         rc = ("raises", pe.name)
+    run_cli.last_written = {p_: (b.getvalue() if hasattr(b, "getvalue") else None) for p_, b in written.items()}
     return rc, out_buf.getvalue(), "\n".join(printed)
+
+
+class _KeepStringIO(io.StringIO):
+    """A text file opened for appending: closing it (the `with` block ending) keeps what was written readable."""
+
+    def close(self):
+        pass
 
 
 def base_options():
@@ -199,7 +216,7 @@ def _cchunk(items):
     out = []
     for kind, args in items:
         try:
-            out.append(("ok", inject_world(_CREPO, *args) if kind == "inject" else decompile_world(_CREPO, *args)))
+            out.append(("ok", inject_world(_CREPO, *args) if kind == "inject" else decompile_world(_CREPO, *args) if kind == "decompile" else safety_world(_CREPO, *args)))
         except Unsupported as e:
             out.append(("unsupported", f"{kind} {[l for l, _ in args[0]]} {args[1:]}: {e}"))
         except AnalysisError as e:
@@ -250,6 +267,113 @@ def explore(repo: Repo, tier: str):
             n += 1
             if o[0] == "unsupported":
                 raise AnalysisError(f"CLI worlds: cannot interpret {o[1]}")
+            for key_, msg in o[1]:
+                c, m = found.get(key_, (0, msg))
+                found[key_] = (c + 1, m if len(m) <= len(msg) else msg)
+    return found, n
+
+
+def safety_world(repo: Repo, stack, print_results: bool) -> List[Tuple[str, str]]:
+    """--check-safety on a stack: the exit status and the JSON report agree with the library verdict of each pickle."""
+    import json
+
+    from .props.c06 import _fresh_objeval
+
+    labels = [l for l, _ in stack]
+    parts = [d for _, d in stack]
+    where = f"--check-safety{' --print-results' if print_results else ''} on stack {labels}"
+    # the library face, pickle by pickle
+    verdicts = []
+    for d in parts:
+        oe = _fresh_objeval(repo)
+        oe.externals["stdlib_list.in_stdlib"] = V._StdlibOracle()
+        A = "fickling.analysis"
+        ab = repo.cls(f"{A}.Analysis")
+        subs = sorted((c for c in repo.classes.values() if c is not ab and repo.is_subclass(c, ab.qualname)), key=lambda c: (c.module.name != A, c.module.name, c.node.lineno))
+        az = oe.instantiate(repo.cls(f"{A}.Analyzer"), [[oe.instantiate(c, [], {}) for c in subs]], {})
+        try:
+            P = oe.ref(repo.cls("fickling.fickle.Pickled")).sa_attr("load")(d)
+            r = oe.module_global(repo.modules[A], "check_safety")(P, analyzer=az)
+            verdicts.append(r.sa_attr("severity")[1]["name"])
+        except PyRaise:
+            return []  # no library verdict for a member: outside this comparison
+    opts = base_options()
+    opts.update({"check_safety": True, "json_output": "report.json", "print_results": print_results})
+    # the CLI builds its default analyzer through the metaclass property (C04.registered): supplied like in the load worlds
+    rc, _out, _txt = run_cli(repo, opts, stdin=b"".join(parts), default_analyzer=True)
+    if isinstance(rc, tuple):
+        return [(f"cli-raises:{rc[1]}", f"{where}: the CLI raises {rc[1]}")]
+    devs = []
+    all_safe = all(v == "LIKELY_SAFE" for v in verdicts)
+    zero = rc in (0, None, False)
+    if zero != all_safe:
+        devs.append(("exit-status-disagrees", f"{where}: exit status {rc!r}, library verdicts {verdicts}"))
+    text = (run_cli.last_written.get("report.json") or "")
+    docs = []
+    dec = json.JSONDecoder()
+    i = 0
+    try:
+        while i < len(text):
+            while i < len(text) and text[i].isspace():
+                i += 1
+            if i >= len(text):
+                break
+            obj, j = dec.raw_decode(text, i)
+            docs.append(obj)
+            i = j
+    except ValueError:
+        devs.append(("report-unreadable", f"{where}: the JSON report is not a sequence of JSON documents"))
+        return devs
+    sevs = [d_.get("severity") if isinstance(d_, dict) else None for d_ in docs]
+    if sevs != verdicts:
+        devs.append(("report-disagrees", f"{where}: the JSON report says {sevs}, the library verdicts are {verdicts}"))
+    return devs
+
+
+def _verdict_pickles():
+    import collections
+
+    return [
+        ("an int", pickle.dumps(5, 2)), ("an OrderedDict", pickle.dumps(collections.OrderedDict(a=1), 2)), ("a non-standard global", b"cnot_stdlib_module\nThing\n."),
+        ("os.system('id')", b"cos\nsystem\n(S'id'\ntR."), ("eval('1')", b"c__builtin__\neval\n(S'1'\ntR."),
+    ]
+
+
+def explore_safety(repo: Repo, tier: str):
+    import itertools
+    import multiprocessing as mp
+    import os
+    from concurrent.futures import ProcessPoolExecutor
+    from pathlib import Path
+
+    from .cache import cached, digest
+
+    global _CREPO
+    _CREPO = repo
+    ps = _verdict_pickles()
+    stacks = [[p] for p in ps] + [list(c) for c in itertools.permutations(ps, 2)] + [[ps[0], ps[0], ps[0]], [ps[0], ps[3], ps[0]], [ps[4], ps[0], ps[1]]]
+    if tier == "thorough":
+        stacks += [list(c) for c in itertools.permutations(ps, 3)][::2]
+    items = [("safety", (st, pr)) for st in stacks for pr in (False, True)]
+    jobs = min(int(os.environ.get("SA_JOBS", "16")), os.cpu_count() or 1)
+    chunks = [items[i::jobs] for i in range(jobs)]
+
+    def compute():
+        try:
+            with ProcessPoolExecutor(max_workers=jobs, mp_context=mp.get_context("fork")) as ex:
+                return list(ex.map(_cchunk, chunks))
+        except (OSError, RuntimeError):
+            return [_cchunk(c) for c in chunks]
+
+    key = "clisafetyworlds-" + digest(repo, [m for m in repo.modules if m.startswith("fickling.") and m.split(".")[1] in ("fickle", "analysis", "cli", "ml")], f"{tier}|{jobs}", [Path(__file__), Path(V.__file__)])
+    parts = cached(key, compute)
+    found: Dict[str, Tuple[int, str]] = {}
+    n = 0
+    for outs in parts:
+        for o in outs:
+            n += 1
+            if o[0] == "unsupported":
+                raise AnalysisError(f"CLI safety worlds: cannot interpret {o[1]}")
             for key_, msg in o[1]:
                 c, m = found.get(key_, (0, msg))
                 found[key_] = (c + 1, m if len(m) <= len(msg) else msg)
